@@ -305,8 +305,9 @@ type Store struct {
 	calls       int
 	reqCalls    map[int]int
 	FaultsFired map[string]int
-	// OnCall is invoked before every call (scheduler yield point); may be nil.
-	OnCall func(ctx context.Context, method string)
+	// OnCall is invoked before every call (scheduler yield point); may be nil. A non-empty result is a fault kind the
+	// scheduler decided to inject into this call.
+	OnCall func(ctx context.Context, method string) string
 
 	idSeq int
 }
@@ -327,8 +328,9 @@ func (s *Store) nextID(prefix string) string {
 // enter journals a call and applies fault injection. It returns the injected
 // fault kind (the caller turns it into the error it reports).
 func (s *Store) enter(ctx context.Context, method string, args ...any) (fault string, je *JournalEntry) {
+	forced := ""
 	if s.OnCall != nil {
-		s.OnCall(ctx, method)
+		forced = s.OnCall(ctx, method)
 	}
 	s.mu.Lock()
 	s.calls++
@@ -346,6 +348,9 @@ func (s *Store) enter(ctx context.Context, method string, args ...any) (fault st
 	s.mu.Unlock()
 	if inject != nil {
 		fault = inject(n, method, rid)
+	}
+	if forced != "" {
+		fault = forced
 	}
 	if fault != "" {
 		s.mu.Lock()
